@@ -45,6 +45,9 @@ def _mentions_marker(model: Model, folder: Folder, fi, expr: ast.AST, marker: st
 
 def check(model: Model, run: Run) -> None:
     folder = Folder(model)
+    # ------------------------------------------------------------------ R8 a malformed block is not answered from the memo
+    run.rule('C08.R8', 'a block decoded as malformed (treat-as-withdraw) neither enters the one-entry block memo nor leaves its key pointing at an older collection (shared with C19.R1b)', floor=2)
+    _r8_cache(model, run, folder)
     parse = model.func(PARSE)
     mod = parse.module
     run.analysed(parse)
@@ -538,3 +541,9 @@ def _r7_table(model: Model, run: Run, attrs: list[dict]) -> None:
                 rec['cls'].loc(),
                 'RFC 7606 section 7 wants %s for attribute %d%s' % (want, aid, ' (and NO_DUPLICATE)' if want == 'reset' else ''),
             )
+
+
+def _r8_cache(model: Model, run: Run, folder: Folder) -> None:
+    from .C19 import cache_guard_rule
+
+    cache_guard_rule(model, run, folder)
